@@ -21,7 +21,10 @@ TEXT = {
           "every point of the box the value of the polynomial lies in the computed interval - tied by exact equality of the returned interval "
           "(h_pival, both variable orders, pre-used outputs). Interval form of the sign-condition test "
           "(lp_sign_condition_consistent_interval): mirror + consistentInterval_sound - an answer true implies that every member of the "
-          "interval (finite or infinite ends, any strictness) satisfies the condition - tied by equality of the answers for all six conditions.",
+          "interval (finite or infinite ends, any strictness) satisfies the condition - tied by equality of the answers for all six conditions. Value intervals with irrational algebraic end points (h_vialg: "
+          "+-sqrt2..+-sqrt7 against rationals of every exact kind): end points are then approximations, so the oracle is property-level - "
+          "rational sample points of both operands (closed ends, points just inside, the middle), located by the proved exact "
+          "comparison, and every x+y, x*y, x^n must lie in the returned interval.",
   "design_ref": "5.15",
   "note": "hand mirror of arithmetic.c tied by correspondence; algebraic end points not replayed; exact scalar arithmetic trusted from C17",
   "technique": "Lean 4 proof over mirror model + exhaustive/differential correspondence harness",
